@@ -476,6 +476,7 @@ func runcacheCmd(args []string) error {
 	// spokfile shapes
 	shapes := map[string][]rcTask{
 		"a(f0)":                            {{name: 0, lits: []int{0}}},
+		"g(*.dat)":                         {{name: 0, globs: []int{0}}},
 		"a(f0) b(a,*.dat)":                 {{name: 0, lits: []int{0}}, {name: 1, globs: []int{0}, deps: []int{0}}},
 		"a(f0) b(f0,f1) c()":               {{name: 0, lits: []int{0}}, {name: 1, lits: []int{0, 1}}, {name: 2}},
 		"a(f0,*.txt) b(*.dat,g0.*)":        {{name: 0, lits: []int{0}, globs: []int{1}}, {name: 1, globs: []int{0, 2}}}, // the same file named twice
@@ -526,6 +527,39 @@ func runcacheCmd(args []string) error {
 				idx++
 				if idx%*nshards == *shard {
 					runHistory("exhaustive", ts, append([]rcOp{{kind: 'E', p: 0, c: "1"}}, prefix...))
+				}
+			}
+			if len(prefix) == depth {
+				return
+			}
+			for _, o := range alpha {
+				rec(append(append([]rcOp{}, prefix...), o))
+			}
+		}
+		rec(nil)
+	}
+	// (a') bounded-exhaustive on a task whose only dependency is a glob that can stop matching: shape "g(*.dat)"
+	{
+		ts := shapes["g(*.dat)"]
+		alpha := []rcOp{
+			{kind: 'E', p: 2, c: "1"}, {kind: 'E', p: 2, c: "-"},
+			mkRun(ts, 0, false, 'S', -1), mkRun(ts, 0, true, 'S', -1), mkRun(ts, 0, false, 'F', 0), {kind: 'X'},
+		}
+		if *tier == "thorough" {
+			alpha = append(alpha, rcOp{kind: 'E', p: 2, c: "2"}, mkRun(ts, 0, true, 'F', 0))
+		}
+		depth := 5
+		if *tier == "thorough" {
+			depth = 6
+		}
+		st.Exhaustive += fmt.Sprintf("; spokfile g(*.dat): every sequence of length <= %d over %d operations (create/delete the only matching file, unforced/forced run, run with a failing command, cache removal; thorough adds a content change and a forced failing run)", depth, len(alpha))
+		idx := 0
+		var rec func(prefix []rcOp)
+		rec = func(prefix []rcOp) {
+			if len(prefix) > 0 {
+				idx++
+				if idx%*nshards == *shard {
+					runHistory("exhaustive-glob-only", ts, append([]rcOp{{kind: 'E', p: 2, c: "1"}}, prefix...))
 				}
 			}
 			if len(prefix) == depth {
